@@ -10,7 +10,7 @@ GENERATED = ['SharedState', 'Core', 'Wrapper', 'SrcDecorate']  # generated files
 LEAN_MODULES = ["Properties.C12", "Properties.Core", "Properties.CoreWrap", "Properties.Prov.Decorate"]
 RULE = (
     "corpus; histories over functions and methods with a provider object / \"self\" / an object that does not implement the protocol / "
-    "\"self\" on a function without self: provider mappings empty, binding used and unused names, conflicting with a literal, referred to "
+    "\"self\" on a function without self, the same method through two instances with mappings of their own: provider mappings empty, binding used and unused names, conflicting with a literal, referred to "
     "inside expressions, changed between calls, returned as a fresh dict or as one long-lived dict; the verdict of every call must be the "
     "fresh verdict under the provider's values at that moment (model) and the provider's mapping must be unchanged afterwards. "
     "non-trivial = distinct history with a provider and >=2 calls"
@@ -33,6 +33,11 @@ def gen(rng, tier) -> str:
         ret = "-" if rng.random() < 0.6 else f"T{rng.randrange(3)}:0"
         steps.append(f"D|{fid}|{pid}|x=T{al}:0|{ret}|-")
         fns[fid] = (al, ret)
+        if pid.startswith("self:") and pid[5:] in ("p1", "p2", "p4") and rng.random() < 0.6:
+            # the same method through a second instance of its class with a mapping of its own
+            other = rng.choice([p for p in ("p1", "p2", "p4") if p != pid[5:]])
+            steps.append(f"I|{fid}b|{fid}|{other}")
+            fns[fid + "b"] = (al, ret)
     for _ in range(10 if tier == "quick" else 30):
         if rng.random() < 0.3:
             steps.append(f"S|{rng.choice(['p1', 'p2', 'p3', 'p4'])}|{rng.choice(['', 'k:3', 'k:5', 'k:3;n:4', 'k:4;n:2', 'a:2;k:3'])}")
@@ -86,6 +91,9 @@ def _expected(line: str):
                 fns[fid] = None
             else:
                 fns[fid] = (pid, params.split("=")[1].split(":")[0], None if ret == "-" else ret.split(":")[0])
+        elif f[0] == "I":
+            base = fns.get(f[2])
+            fns[f[1]] = None if base is None else ("self:" + f[3], base[1], base[2])
         elif f[0] == "C":
             fid, _names, val, ret = f[1:5]
             d = fns.get(fid)
@@ -98,6 +106,9 @@ def _expected(line: str):
                 scope = {}
             elif kind.get(p) in ("fresh", "long", "falsy"):
                 scope = cur[p]
+            elif kind.get(p) in ("bad", "badfalsy"):
+                exp.append(("call", "not-a-provider"))   # an object that does not implement the protocol
+                continue
             else:
                 exp.append(("call", None))
                 continue
@@ -141,6 +152,8 @@ def judge(case, impl_out, spec):
                 return f"\"self\" on a function without self/cls must be refused with TypeError at decoration, got {got!r}"
             continue
         rejected = " reject " in " " + got + " "
+        if e == "not-a-provider" and got != "calls=0 reject scopeprovider":
+            return f"call #{k}: the scope provider does not implement the protocol; DLTypeScopeProviderError is demanded, but: {got!r}"
         if e == "accepted" and got != "calls=1 ok":
             return f"call #{k} conforms under the mapping its provider returns at that moment, but: {got!r}"
         if e == "args-rejected" and not (got.startswith("calls=0 ") and rejected):
